@@ -14,6 +14,7 @@ compare the definition with `Ref/` then fail, which the check reports.
 import os
 import sys
 import json
+import re
 import hashlib
 
 HERE = os.path.dirname(os.path.abspath(__file__))
@@ -562,6 +563,64 @@ def gen_generator():
     return "\n".join(out)
 
 
+# An item that cannot be extracted (the source no longer has the shape the translator knows) is recorded
+# in `failures` -- an undischarged obligation for the properties that read it -- and its definition falls
+# back to the value extracted from the pinned tree (tools/gen_defaults.json), so that the model the *other*
+# properties' correspondence runs against stays meaningful instead of being built on 0 / [] stubs.
+FAIL_DEFS = {
+    "FuzzyHashBucketMapper consts": ["bucketInfo", "numBucketsShort", "numBucketsNormal", "numBucketsLong"],
+    "b_mapping selection": ["bucketMapping"], "SUBST_TABLE": ["substTable"], "INITIAL_STATE": ["pearsonInitialState"],
+    "SUBST_TABLE_48 fold": ["fold48"], "WINDOW_SIZE": ["windowSize"], "bucket pairings": ["pairings", "pairingsSrc"],
+    "checksum update args": ["checksumArgs"], "register shift": ["registerShift"],
+    "checksum update bodies": ["checksumSteps1", "checksumSteps3"], "option flags": ["optionFlagBits"],
+    "qratio constants": ["qratioConsts"], "select_nth_unstable args": ["selectArgs"],
+    "ENCODED_VALUE_SIZE": ["encodedValueSize"], "TOP_VALUE_BY_ENCODING": ["topValue"], "length MAX": ["maxLength"],
+    "length thresholds": ["lengthThresholds"], "checksum sizes": ["checksumSizeNormal", "checksumSizeLong"],
+    "short checksum validity bound": ["shortChecksumMax"], "variants": ["variants"],
+    "HEX_UPPER_NIBBLE_TABLE": ["hexUpperNibbleTable"], "HEX_REV_TABLE_LO": ["hexRevTableLo16", "hexRevTableLo8"],
+    "HEX_INVALID": ["hexInvalid16", "hexInvalid8"], "decode_digit": ["decodeDigitArms", "decodeDigitDefault"],
+    "hash prefix literal": ["hashPrefix", "hashPrefixOccurrences"], "LEN_IN_STR_EXCEPT_PREFIX": ["prefixLenInSizes"],
+    "size formulas": ["sizeFormulas"], "quartile accessor": ["quartileBodies"],
+    "dist_body constants": ["bodyOutlierValue", "maxDistanceBody", "maxDistanceBodyText"],
+    "dist_length constants": ["lengthMult", "maxDistanceLength"],
+    "dist_qratios constants": ["qratioMult", "maxDistanceQRatios"], "ring moduli": ["ringModuli"],
+    "distance scaling rules": ["lengthRule", "lengthTableThreshold", "qratioRule"],
+    "compare_with_config body": ["compareWithConfigBody"], "BUFFER_SIZE": ["bufferSize"],
+    "hash_stream_common": ["retryInterrupted", "streamLenInvariant"],
+    "serde visitors": ["serdeBytesVisitorUnwraps", "serdeHints"],
+}
+DEFAULTS_PATH = os.path.join(HERE, "gen_defaults.json")
+_DEF_RE = re.compile(r"^def (\w+)\b.*?(?=^(?:def |/--|end |-- )|\Z)", re.S | re.M)
+
+
+def apply_defaults(files, freeze):
+    blocks = {fn: {m.group(1): m.group(0) for m in _DEF_RE.finditer(txt)} for fn, txt in files.items()}
+    if freeze:
+        if failures:
+            print("refusing to freeze defaults: extraction failures " + "; ".join(failures), file=sys.stderr)
+        else:
+            with open(DEFAULTS_PATH, "w") as f:
+                json.dump({k: v for k, v in blocks.items() if k in ("Generator.lean", "Codec.lean", "Compare.lean", "Easy.lean")},
+                          f, indent=0, sort_keys=True)
+        return files
+    if not failures or not os.path.exists(DEFAULTS_PATH):
+        return files
+    defaults = json.load(open(DEFAULTS_PATH))
+    wanted = set()
+    for fl in failures:
+        for key, names in FAIL_DEFS.items():
+            if fl.startswith(key):
+                wanted.update(names)
+    for fn, txt in list(files.items()):
+        for name in wanted:
+            cur = blocks.get(fn, {}).get(name)
+            dflt = defaults.get(fn, {}).get(name)
+            if cur is not None and dflt is not None and cur != dflt:
+                txt = txt.replace(cur, "-- (not extractable from the current source: reference value)\n" + dflt, 1)
+        files[fn] = txt
+    return files
+
+
 def main():
     changed = []
     files = {"Generator.lean": gen_generator()}
@@ -569,6 +628,7 @@ def main():
     if os.path.exists(extra):
         import extract_more
         files.update(extract_more.generate(sys.modules[__name__]))
+    files = apply_defaults(files, "--freeze-defaults" in sys.argv)
     status = [HEADER, "namespace TlshVerif.Gen\n",
               "def extractionFailures : List String := [" +
               ", ".join(json.dumps(f) for f in failures) + "]\n",
